@@ -1,4 +1,5 @@
 #!/bin/sh
-# refresh the snapshot of /verif's HEAD used for testing seeded changes, and build its Coq development
-if [ ! -d /tmp/vsnap ]; then git -C /verif worktree add -q --detach /tmp/vsnap HEAD; else (cd /tmp/vsnap && git checkout -q -f --detach $(git -C /verif rev-parse HEAD)); fi
-cd /tmp/vsnap && coq/mk.sh > /tmp/vsnap/.coqbuild.log 2>&1; tail -1 /tmp/vsnap/.coqbuild.log
+# refresh the snapshot of /verif's HEAD used for testing seeded changes (default /tmp/vsnap, or $1), and build its Coq development
+d=${1:-/tmp/vsnap}
+if [ ! -d $d ]; then git -C /verif worktree add -q --detach $d HEAD; else (cd $d && git checkout -q -f --detach $(git -C /verif rev-parse HEAD)); fi
+cd $d && coq/mk.sh > $d/.coqbuild.log 2>&1; tail -1 $d/.coqbuild.log
